@@ -731,7 +731,16 @@ def run(chk, repo, tier):
     okw, nw, detw = True, 0, ''
     for p in returns(wpaths):
         if nf.strip_apps(p.ret) == S('img'):
-            continue                    # single value: returned as it is
+            if any(pol and fmt(c) in ('is(shape, (None))', 'eq(img.size, 1)') for c, pol, _ in p.conds):
+                continue                    # nothing requested / a single value: returned as it is
+            # handed back unchanged although a shape was requested: right only if the frame axes - the last two, a cube is
+            # (depth, rows, cols) - already have that shape
+            last_two = any(pol and 'img.shape[-2:' in fmt(c) for c, pol, _ in p.conds)
+            okw = okw and (None if last_two else False) if okw is not False else okw
+            if not last_two:
+                okw, detw = False, (f'[{conds_str(p)[-90:]}] returns img unchanged: decided without comparing the requested shape with the '
+                                    'last two axes (for a cube the first two are depth and rows)')
+            continue
         nw += 1
         a = p.ret.single_atom() if isinstance(p.ret, Poly) else None
         good = a is not None and is_app(a, 'call:util.pad') and \
@@ -740,7 +749,7 @@ def run(chk, repo, tier):
         if not good:
             okw, detw = False, f'a path returns {fmt(p.ret)[:100]} [{conds_str(p)[-80:]}]'
     chk.ob('C20-b', 'D-flow', fw.key, 'window(shape) trims about the centre with pad (which handles cubes) on every path',
-           okw and nw > 0, detw or f'{nw} path(s)', fw.loc())
+           (okw and nw > 0) if okw is not None else None, detw or f'{nw} path(s)', fw.loc())
     chk.clause('C20-i', 'a drawn shape honours the shift it is given exactly (fractional shifts reach the coordinate mesh unrounded)', 3)
     for key in ('shape.circle', 'shape.hexagon', 'shape.rectangle'):
         sf, sp, _ = analyse(repo, key, config={'shift': pair('shift')}, inline=['shape.rectangle'] if key != 'shape.rectangle' else [])
@@ -835,6 +844,60 @@ def run(chk, repo, tier):
                     dets = f'value at (-r, -c) is {fmt(flipped)[:140]}, at (r, c) {fmt(p.ret)[:140]}'
             chk.ob('C20-f', 'N-symmetry', key, f'unchanged by a half-turn about the origin sample [{label}]',
                    (verdict and nn > 0) if verdict is not None else None, dets or f'{nn} path(s)', sf.loc())
+    # a circle drawn without helper.mesh (index vectors per axis): the distance is zero at the origin sample of each axis,
+    # index floor(n_axis/2) + shift_axis - rows counted from the row count, columns from the column count
+    sf, sp, _ = analyse(repo, 'shape.circle', config={'shift': pair('shift'), 'shape': pair('shape')})
+    oko, deto, no_ = None, 'drawn on helper.mesh', 0
+    for p in returns(sp):
+        if p.calls('helper.mesh'):
+            oko = True if oko is None else oko
+            continue
+        def radicands(v, out):
+            """the expressions under a square root anywhere inside v"""
+            if isinstance(v, Poly):
+                for mono, _c in v.terms:
+                    for a_, e_ in mono:
+                        if e_.denominator == 2:
+                            out.append(a_[1] if a_[0] == 'poly' else Poly.atom(a_))
+                        radicands(a_, out)
+            elif isinstance(v, Tup):
+                for i_ in v.items:
+                    radicands(i_, out)
+            elif isinstance(v, tuple):
+                for x_ in (v[1:] if v and isinstance(v[0], str) else v):
+                    if isinstance(x_, (Poly, Tup, tuple)):
+                        radicands(x_, out)
+            return out
+        roots = [('poly', q_) for q_ in {nf.vkey(x_): x_ for x_ in radicands(p.ret, [])}.values()]
+        ar = {a for a in nf.value_atoms(p.ret) if is_app(a, 'arange') and len(a[2]) == 1 and isinstance(a[2][0], Poly)
+              and a[2][0].single_atom() is not None and a[2][0].single_atom()[0] == 'idx' and a[2][0].single_atom()[1] == ('sym', 'shape')}
+        if not roots or not ar:
+            oko, deto = (None if oko is not False else oko), 'undecided: neither helper.mesh nor per-axis index vectors found'
+            continue
+        mapping = {}
+        for a in ar:
+            k = a[2][0].single_atom()[2]
+            mapping[a] = HALF(a[2][0]) + nf.index(S('shift'), k)
+        for r in roots:
+            q = nf.subst_value(r[1], mapping)
+            for _ in range(3):
+                outer = {x: (x[2][0] + x[2][1]) for x in nf.value_atoms(q) if is_app(x, 'add_outer') and len(x[2]) == 2
+                         and all(isinstance(y, Poly) for y in x[2])}
+                idxs = {x: Poly.atom(x[1]) for x in nf.value_atoms(q) if x[0] == 'idx' and isinstance(x[2], Tup)
+                        and all(i == NONE or isinstance(i, Slice) for i in x[2].items) and x[1][0] in ('val', 'poly')}
+                if not outer and not idxs:
+                    break
+                q = nf.subst_value(q, {**outer, **idxs})
+            if not isinstance(q, Poly):
+                continue
+            no_ += 1
+            if q.is_zero():
+                oko = True if oko is None else oko
+            elif not any(x[0] == 'app' and x[1] in ('arange', 'add_outer') for x in nf.value_atoms(q)):
+                oko = False
+                deto = f'squared distance at the origin sample (floor(n/2) + shift on each axis) is {fmt(q)[:140]}, not 0'
+    chk.ob('C20-f', 'N-origin', sf.key, 'the circle is centred on the origin sample floor(n/2) + shift of each axis', oko,
+           deto if oko is not True or not no_ else f'{no_} distance expression(s) vanish at the origin', sf.loc())
     chk.not_decided += ['translation symmetry of drawn shapes numerically, equal areas']
     pad_rules(chk, repo)
     helper_rules(chk, repo)
